@@ -14,24 +14,39 @@ TEXT = {
   "technique": "Lean 4 proof over a ledger state machine + differential replay of accepted blocks + conservation monitor",
  },
  "C07": {
-  "text": "Kernel-checked refinement: the rollback overlay that Get(X) folds from the stored undo patches, laid over the "
-          "frontier, equals the store as of X for every key and every sequence of later commits (view_reconstructs), the "
-          "byte-level tombstone/marker encoding refines the logical level (hist_get_refines, overlay_refines, apply_refines). "
-          "The hand-written model of ldbManager and the view tree is tied to the code by the vdb stream (every read of every "
-          "operation sequence compared) and a shadow-map monitor that states the property directly.",
+  "text": "Kernel-checked on the EXECUTABLE manager model (Ldb = ldbManager, cache-free Get) for every reachable state "
+          "(any sequence of frontier commits, commits on other parents, pops; ghost history invariant proved by "
+          "induction, Lemmas/LdbInv.lean): Get(id) of every version on the chain succeeds and reads, for every key, "
+          "exactly the content at that commit (view_refines, view_refines_has); its ordered prefix scan is the "
+          "key-ordered list of exactly those entries (view_refines_scan_partial, via merged_scan_correct: two-way merged "
+          "iterator over sorted layers = sorted entries of the merged lookup) except empty-valued keys below the "
+          "frontier (F3b, negative theorems); unknown identifiers are refused, commits on a non-frontier parent change "
+          "nothing (add_parent_check), views of the same version agree across states (view_immutable), a cached overlay "
+          "extended above its frontier equals the rebuilt one (cached_overlay_sound), replaying a view's change set "
+          "gives its reads and the change set is independent of write order (changes_replay_*, changes_order_independent). "
+          "The model is tied to the code by the vdb stream (every read of every operation sequence compared) and a "
+          "shadow-map monitor that states the property directly.",
   "design_ref": "§3 C07",
-  "note": "Sequential model; caches not modelled (cache-free Get) — cached real code compared by correspondence; "
-          "goleveldb snapshots trusted; scans of historical views drop empty-valued keys (known finding F3b).",
-  "technique": "Lean 4 refinement proof (induction over commits) + differential correspondence on op sequences",
+  "note": "Sequential model; caches are not state of the model (cache-free Get; the cached path is covered by "
+          "cached_overlay_sound + correspondence); hypotheses of a frontier commit: height = frontier height + 1 < 2^64, "
+          "hash not on the chain, user keys outside the hash-index prefix; goleveldb snapshots trusted; scans of "
+          "historical views drop empty-valued keys (known finding F3b); patches_replay concerns the GetPatch table, "
+          "which the stream does not exercise.",
+  "technique": "Lean 4 refinement proof (induction over reachable manager states) + differential correspondence on op sequences",
  },
  "C06": {
-  "text": "Kernel-checked: the undo patch recorded at commit restores the previous state for every key (rollback_exact), "
-          "popping a whole branch returns to the fork point and committing the other branch ends in the state of a node "
-          "that only saw that branch (branch_switch); tied to ldbManager by the pop-heavy vdb stream with views opened "
-          "before the switch and re-read after it.",
+  "text": "Kernel-checked on the executable manager model: in every reachable state, commit on the frontier followed "
+          "by pop is observationally the identity — same logical frontier, same frontier identifier, and for every "
+          "identifier Get answers alike with views agreeing on every lookup and every ordered prefix scan (pop_add, "
+          "ObsEq); any two reachable states with the same chain of versions are observationally equal whatever "
+          "branches were committed and popped on the way (same_history_same_obs); the undo patch recorded at commit "
+          "restores the previous state for every key (rollback_exact), popping a whole branch returns to the fork "
+          "point (branch_switch); tied to ldbManager by the pop-heavy vdb stream with views opened before the switch "
+          "and re-read after it.",
   "design_ref": "§3 C06",
-  "note": "State-level theorems; pool and consensus-statistics clauses are correspondence only.",
-  "technique": "Lean 4 proof (induction) + differential correspondence on op sequences",
+  "note": "Observational, not raw, equality (tombstones of created keys remain in the raw frontier — witness example); "
+          "pool and consensus-statistics clauses are correspondence only.",
+  "technique": "Lean 4 proof (invariant over reachable manager states) + differential correspondence on op sequences",
  },
  "C12": {
   "text": "Kernel-checked theorems over the Go-faithful model of getTargetByDifficulty / greaterDifficulty / "
